@@ -43,9 +43,11 @@ def render_amount(value, style, decimal='.'):
         body = _fmt_group(ip, tsep) + decimal + '%02d' % fp
     if style in ('currency', 'cur-neg', 'paren-cur', 'thousands-cur'):
         body = '$' + body
-    elif style == 'euro':
+    elif style in ('euro-odd', 'pound-odd') and ip >= 10:
+        body = ('€' if style == 'euro-odd' else '£') + str(ip)[:-1] + tsep + str(ip)[-1] + decimal + '%02d' % fp
+    elif style in ('euro', 'euro-odd'):
         body = '€' + body
-    elif style == 'pound':
+    elif style in ('pound', 'pound-odd'):
         body = '£' + body
     elif style == 'yen-space' and not neg:
         body = '¥ ' + body           # symbol, blank, number (only unsigned: "- 5" is not a number anywhere)
@@ -93,6 +95,10 @@ def gen_rows(rng, n, first_id=1, year=2025, allow_rich=False, neg_rate=0.2):
         })
         if three:
             rows[-1]['style'] = 'plain3'
+        elif rows[-1]['style'] in ('euro', 'pound') and abs(val) >= 10 and rid % 2:
+            # a grouping separator in an odd place (an export that groups by hundreds, a hand-edited cell): dropped wherever it
+            # stands, the value is what the digits say.  (Chosen by the row number, not drawn.)
+            rows[-1]['style'] += '-odd'
     if allow_rich and n >= 3 and rng.random() < 0.25:
         # a statement in which nearly every description carries the same punctuation: apostrophe-wrapped words, semicolons, bars,
         # backslashes (what guesses a file's dialect from character frequencies would latch on to) - plus one cell that really
